@@ -195,6 +195,8 @@ class IO:
         tr = sim.tracks
         fmt = op["fmt"]
         subset = self._subset(sim, op) if kind == "export" else None
+        if op.get("sweep"):
+            return self._sweep(sim, op, fmt, subset, kind)
         d = self.fresh(f"{kind}-{fmt}")
         pre = sim.pre["deep"] if sim.pre.get("deep") is not None else observe.deep(tr, len(sim.emissions))
         _, exc, seam = self._armed(sim, op, d, lambda dd: self._write(sim, fmt, dd, subset, op.get("overwrite", False)), "w")
@@ -235,6 +237,65 @@ class IO:
             if seam.fired is not None and sim.active("C14"):
                 # a write error was swallowed: the round trip must still hold
                 self._roundtrip_compare(sim, op, fmt, d, out, with_pos=True, why="after a swallowed write error")
+        return out
+
+    def _sweep(self, sim, op, fmt, subset, kind, cap=160):
+        """Single-fault sweep: fail every k-th call of every kind of this one export on this
+        state (strided down to `cap` positions). The object must stay unchanged each time
+        (C16); an export that returns normally although a write failed must still
+        round-trip (C14)."""
+        tr = sim.tracks
+        twin = self.fresh("sweep-twin")
+        try:
+            with DiskSeam(twin) as s0:
+                self._write(sim, fmt, twin, subset, op.get("overwrite", False))
+        except StepTimeout:
+            raise
+        except Exception:  # noqa: BLE001
+            return None
+        shutil.rmtree(twin, ignore_errors=True)
+        positions = [(fk, k) for fk in ("open", "write", "mkdir", "replace", "link", "unlink") for k in range(1, s0.counts.get(fk, 0) + 1)]
+        stride = max(1, -(-len(positions) // cap))
+        positions = positions[::stride]
+        pre = observe.deep(tr, len(sim.emissions))
+        out = {"resolved": {"fmt": fmt, "sweep": len(positions), "of": sum(s0.counts.values())}, "tags": [fmt, "sweep"], "cls": "returned", "io": len(s0.events)}
+        raised = swallowed = 0
+        for fk, k in positions:
+            d = self.fresh("sweep")
+            seam = DiskSeam(d, {"kind": fk, "k": k, "mode": "w"})
+            exc = None
+            try:
+                with seam:
+                    self._write(sim, fmt, d, subset, op.get("overwrite", False))
+            except StepTimeout:
+                raise
+            except BaseException as e:  # noqa: BLE001
+                exc = e
+            if seam.fired:
+                sim.count("io_fault_" + fk)
+            if sim.active("C16"):
+                dd = observe.deep_diff(pre, observe.deep(tr, len(sim.emissions)))
+                if dd:
+                    sim.violate("C16", "C16.export_failed" if exc is not None else "C16.export", f"{kind} {fmt} with {fk} #{k} failing changed {dd[:2]}", op, out["tags"] + [fk])
+                    return out
+                sim.stat("C16.eval")
+                sim.case(kind, fmt, bool(subset), fk, k, observe.shape_hash(tr))
+            if exc is None and seam.fired:
+                swallowed += 1
+                if sim.active("C14") and subset is None:
+                    self._roundtrip_compare(sim, op, fmt, d, out, with_pos=not self._d7_predicate(tr), why=f"after a swallowed {fk} #{k} error")
+                    if sim.violations:
+                        return out
+            elif exc is not None:
+                raised += 1
+                if not isinstance(exc, OSError) and sim.active("C14"):
+                    sim.count("io_fault_surfaced_as_" + type(exc).__name__)
+            shutil.rmtree(d, ignore_errors=True)
+        sim.count("io_sweeps")
+        sim.count("io_sweep_positions", len(positions))
+        sim.count("io_sweep_raised", raised)
+        sim.count("io_sweep_swallowed", swallowed)
+        out["resolved"].update(raised=raised, swallowed=swallowed)
         return out
 
     def op_reimport(self, sim, op):
